@@ -254,13 +254,10 @@ Definition error_response : chars :=
   s2c "HTTP/1.1 500 Internal Server Error" ++ crlf ++ s2c "content-type: text/plain" ++ crlf ++
   s2c "content-length: 0" ++ crlf ++ crlf.
 
-(** exporter.rs: [read_json] does ONE [read_buf] into a Vec of capacity 16 KiB:
-    a longer message is cut, serde_json fails, the client gets the 500. *)
-Definition OBS_READ_CAP : nat := Z.to_nat 16384.
-
-Definition respond (s : obs_state) (ft : ftoks) : option chars :=
-  if (OBS_READ_CAP <? length (print (to_json s)))%nat then Some error_response
-  else render s ft.
+(** exporter.rs: [read_json] reads the whole observation message ([read_to_end],
+    since 04bf296), whatever its size and however it is delivered; a state that
+    deserialises is answered with [render]. *)
+Definition respond (s : obs_state) (ft : ftoks) : option chars := render s ft.
 
 (** * Parsing an HTTP response and the exposition format (oracle side) *)
 
